@@ -312,6 +312,71 @@ func init() {
 				r.Sample(map[string]any{"name": j.Name, "args": args, "text": j.Text, "exit": res.Exit})
 			}
 		})
+		// (6) a second run into a directory that already holds the output of an earlier run (an edited grammar, other
+		// flags): what the second run writes must be exactly what it writes into an empty directory, and must compile
+		{
+			seeds := gram.Seeds()
+			type rr struct {
+				name          string
+				t1, t2        string
+				f1, f2        []string
+				compileSecond bool
+			}
+			reruns := []rr{
+				{"flags-then-plain", seeds[0].Text, seeds[0].Text, []string{"-a", "-debug_lexer", "-debug_parser", "-v"}, []string{"-a"}, true},
+				{"zip-then-plain", seeds[0].Text, seeds[0].Text, []string{"-a", "-zip"}, []string{"-a"}, true},
+				{"plain-then-zip", seeds[1].Text, seeds[1].Text, []string{"-a"}, []string{"-a", "-zip"}, true},
+				{"big-then-small", seeds[1].Text, seeds[3].Text, []string{"-a"}, []string{"-a"}, true},
+				{"small-then-big", seeds[3].Text, seeds[0].Text, []string{"-a"}, []string{"-a"}, true},
+				{"syntax-then-lexer-only", seeds[0].Text, seeds[2].Text, []string{"-a"}, []string{"-a"}, false},
+			}
+			for ri, x := range reruns {
+				mk := func(tag string) (string, string) {
+					jroot := filepath.Join(sw.root, fmt.Sprintf("rr%d%s", ri, tag))
+					dir := filepath.Join(jroot, "w")
+					os.MkdirAll(dir, 0o777)
+					os.WriteFile(filepath.Join(jroot, "go.mod"), []byte("module vt\n\ngo 1.24\n"), 0o666)
+					return jroot, dir
+				}
+				jr1, d1 := mk("a")
+				jr2, d2 := mk("b")
+				os.WriteFile(filepath.Join(d1, "g.bnf"), []byte(x.t1), 0o666)
+				r1 := sw.pool.Run(gen.Job{Dir: d1, Args: append(append([]string{}, x.f1...), "-o", "o", "g.bnf")})
+				os.WriteFile(filepath.Join(d1, "g.bnf"), []byte(x.t2), 0o666)
+				r2 := sw.pool.Run(gen.Job{Dir: d1, Args: append(append([]string{}, x.f2...), "-o", "o", "g.bnf")})
+				os.WriteFile(filepath.Join(d2, "g.bnf"), []byte(x.t2), 0o666)
+				r3 := sw.pool.Run(gen.Job{Dir: d2, Args: append(append([]string{}, x.f2...), "-o", "o", "g.bnf")})
+				r.Add("evaluations", 3)
+				r.Add("second_runs_into_a_used_directory", 1)
+				if r1.Exit != 0 || r2.Exit != 0 || r3.Exit != 0 || r1.Hang || r2.Hang || r3.Hang {
+					if r2.Exit != r3.Exit {
+						r.Violate("c09", "rerun "+x.name, fmt.Sprintf("%s: the second run exits %d into a used directory and %d into an empty one", x.name, r2.Exit, r3.Exit), map[string]any{"name": x.name})
+					}
+					os.RemoveAll(jr1)
+					os.RemoveAll(jr2)
+					continue
+				}
+				used, fresh := gen.ReadTree(filepath.Join(d1, "o")), gen.ReadTree(filepath.Join(d2, "o"))
+				bad := ""
+				for k, v := range fresh {
+					if w, ok := used[k]; !ok {
+						bad = "the second run did not write " + k
+					} else if !bytes.Equal(v, w) && !strings.HasSuffix(k, ".txt") {
+						bad = fmt.Sprintf("%s holds %d bytes after the second run, %d bytes when written into an empty directory", k, len(w), len(v))
+					}
+					if bad != "" {
+						break
+					}
+				}
+				if bad != "" {
+					r.Violate("c09", "rerun "+x.name, fmt.Sprintf("%s: %v then %v into the same directory, both exit 0: %s", x.name, x.f1, x.f2, bad), map[string]any{"name": x.name, "first": x.t1, "second": x.t2})
+				} else {
+					r.Distinct("rerun " + x.name)
+				}
+				os.RemoveAll(jr1)
+				os.RemoveAll(jr2)
+			}
+		}
 		sw.checkCross()
 		// compile step: distinct (text, flags, form) in one module, one go build
 		var cks []string
